@@ -7,7 +7,9 @@ import TbotVerif.Props.C08Mon
         operation feeds exactly the delivered chunks, in order, through `writeStream`.
     (2) text level: `asciiT_decodeReplace`, `asciiT_fragments` (`C08Text.lean`), `fwdFor_text`.
     (3) case level: `case_spec_partial`; the full statement is FALSE for the model (and for the
-        code it mirrors) — `case_spec_full_is_false`. -/
+        code it mirrors) — `case_spec_full_is_false`.
+    (4) overlapping attachments that all show the prompt, ended in any order (`streamExitAt`):
+        `C08OverlapAttach.lean` (`case_spec_overlapping`, `stream_gets_exactly_its_window`). -/
 
 namespace C08
 open Chan Spec C03 ChanCase
@@ -148,7 +150,7 @@ theorem case_spec_partial (c : Case) (h : WfCase c) (hn : noNesting c.ops = true
   unfold Spec.C08 Chan.run
   simp only
   exact fold_inv c.ops (initSt c) {} (good_init c h) h.ops
-    (Inv.closed _ rfl rfl rfl ⟨fun r h => by simp [initSt] at h, fun p hp => by simp [initSt] at hp⟩) hn hq
+    (Inv.closed true _ rfl rfl rfl ⟨fun r h => by simp [initSt] at h, fun p hp => by simp [initSt] at hp⟩) hn hq
 
 /-- the hypotheses are satisfiable by a non-trivial case: literal prompt `PQ`, suppressing
     attachment, a read that ends inside the prompt (`P` held back), a read that completes it,
